@@ -28,7 +28,7 @@ TEXT = {
           "stateful property-based testing (rapid) with a pre-state role oracle and row-level frame"),
  "C09": S("Round trip export -> validate -> import -> re-export -> invariants over sampled reachable states, using the modules' own genesis entry points.",
           "stateful property-based testing (rapid) with a round-trip oracle"),
- "C10": S("Differential and metamorphic testing of recorded traces: 6 in-process executions with different restart sets (+1 in a second OS process in the thorough tier) must agree on hashes, results, events and gas.",
+ "C10": S("Differential and metamorphic testing of recorded traces: up to 9 in-process executions (different restart sets, another local time zone, three goroutines simulating concurrently, failed messages removed, speculative discarded-branch executions removed; +1 in a second OS process with another TZ in the thorough tier) must agree on hashes, results, events and gas; a share of the cases is repeated in a race-detector build.",
           "differential / metamorphic testing of generated traces (rapid)"),
  "C11": S("Put is checked in both directions against a reference admission rule with exact calendar arithmetic; Take is checked with a validity predicate (ties may go either way) and exact post-state.",
           "stateful property-based testing (rapid) with a reference rule and a validity predicate"),
@@ -48,7 +48,7 @@ TEXT = {
           "stateful property-based testing (rapid) over configurations with canary operations"),
  "C19": P("Hundreds of thousands of generated decimal pairs compared with an independent big-rational reference, including bit-level operand immutability via reflection; native fuzzing in the thorough tier.",
           "property-based testing (rapid) against a math/big.Rat reference and native go fuzzing"),
- "C20": P("The handler is run with hand-written recording fakes over generated owners, inner messages, block times and availability combinations after a real wire round trip of the outer message.",
+ "C20": P("The handler is run with hand-written recording fakes over generated owners, inner messages, block times and availability combinations after a real wire round trip of the outer message; sequences of submissions share one keeper; SendTx failures are injected (fault injection) and must surface as failed submissions.",
           "property-based testing (rapid) with recording fakes"),
 }
 NOT_APPLICABLE = {}
